@@ -83,6 +83,13 @@ def worker(case):
             judge(names, res, probs, "length-boundary")
             n += 1
         key = core.digest(case)
+    elif kind == "many-long":
+        _, count, plen, ch = case
+        names = [(ch * plen) + "tail%02d" % k for k in range(count)]
+        res = assign(names)
+        judge(names, res, probs, "many-long-siblings")
+        n += 1
+        key = core.digest(case)
     elif kind == "sdn":
         _, base, taken = case
         names = ["%s_sdn_%d_" % (base, k) for k in taken] + [base, base.upper(), base]
@@ -194,6 +201,10 @@ def cases(tier):
                 for cb in ("a", "b", "_"):
                     for shared in (0, 255, 256):
                         out.append(("length", la, lb, ca, cb, shared))
+    for count in (3, 11, 12):
+        for plen in (255, 256, 300):
+            for ch in ("a", "A", "-"):
+                out.append(("many-long", count, plen, ch))
     for base in ("x", "X", "a-b", "1"):
         for taken in ((1,), (1, 2), (2,), (1, 3)):
             out.append(("sdn", base, taken))
